@@ -452,6 +452,7 @@ package bgp
 //@   inline
 //@ interface AsPathParamInterface.Len
 //@   pure
+//@   ensures result == 2 + segLen(self) * (typeOf(self) == (*As4PathParam) ? 4 : 2)
 //@ func NewPathAttributeAsPath
 //@   index-function
 //@   requires forall k int :: 0 <= k && k < len(value) ==> value[k] != nil
